@@ -324,6 +324,26 @@ def run_defects(case, J):
                 entry.insert(pos, None)
                 J.select(k, entry, f"mesh {mesh} plus the off-mesh point {q.tolist()} ({oname}) inserted at {pos}", sfx=":added")
             n += 3
+    # --- combined defects: m points removed AND m (or m+1) OTHER points given twice, so that the list is as long as
+    #     (or longer than) a complete mesh although it is incomplete
+    if N >= 3:
+        for m in (1, 2):
+            if N < 2 * m + 1:
+                continue
+            for jr in positions(N, full)[: (None if full else 3)]:
+                removed = [(jr + t) % N for t in range(m)]
+                others = [i for i in range(N) if i not in removed]
+                for extra in (0, 1):
+                    dup = others[: m + extra] if jr % 2 == 0 else others[-(m + extra):]
+                    keep = [i for i in range(N) if i not in removed]
+                    for place in ("end", "next"):
+                        order = list(keep)
+                        for d in dup:
+                            order.insert(order.index(d) + 1 if place == "next" else len(order), d)
+                        k = k0[order]
+                        what = f"mesh {mesh} with points {removed} removed and points {dup} given twice ({place})"
+                        J.select(k, [entry0[i] for i in order], what, expect="reject", sfx=":removed_and_duplicated")
+                        n += 1
     # --- several points removed: along one axis, every point whose coordinate i/n is in lowest terms (gcd(i,n)=1), so
     #     that no remaining coordinate carries the full denominator (e.g. {0, 1/3, 1/2, 2/3} of a 6-mesh)
     for ax in range(3):
